@@ -283,6 +283,10 @@ def invariants(chk: Check, n):
             bad = "session revenue"
         elif (np.diff(s["user"]) < 0).any():
             bad = "sessions of a user are not contiguous"
+        elif cov and ((s["orders_covariate"] < 0).any() or (s["orders_covariate"] > s["sessions_covariate"] + 1e-9).any()
+                      or (s["revenue_covariate"] < 0).any()
+                      or (s["revenue_covariate"][s["orders_covariate"] == 0] != 0).any()):
+            bad = "session covariates: not 0 <= orders_covariate <= sessions_covariate, or revenue_covariate without orders"
         elif cov:
             for c in ("sessions_covariate", "orders_covariate", "revenue_covariate"):
                 first = {}
